@@ -124,7 +124,10 @@ SweepChecks(w, sw) ==
         okCached(s) == OpenRel(w, s.f) \/ (NoDup(s.cached) /\ Range(s.cached) = QuerySet(w, s.f))
     IN << Chk("C07", "sweep-cached-equals-original", \A i \in DOMAIN sw : ok(sw[i])),
           Chk("C03", "sweep-original-is-matchset", \A i \in DOMAIN sw : okAbs(sw[i])),
-          Chk("C03", "sweep-registered-query-is-matchset-once", \A i \in DOMAIN sw : okCached(sw[i])) >>
+          Chk("C03", "sweep-registered-query-is-matchset-once", \A i \in DOMAIN sw : okCached(sw[i])),
+          (* C05: a relation filter with target T - registered or not - selects exactly the entities with target T *)
+          Chk("C05", "sweep-relation-filter-selects-its-target",
+              \A i \in DOMAIN sw : Core(sw[i].f).k = "rel" => (okCached(sw[i]) /\ okAbs(sw[i]))) >>
 
 ---------------------------------------------------------------------------
 (* Event checks *)
@@ -186,7 +189,7 @@ RECURSIVE Cum(_, _)
 Cum(steps, j) == IF j = 0 THEN 0 ELSE Cum(steps, j - 1) + StepSize(steps[j].s)
 
 (* S: the set of entities the query must iterate. *)
-PanelChecks(w, S, p, prop) ==
+PanelChecks1(w, S, p, prop) ==
     LET at == p.at
         st == p.steps
         n  == Len(st)
@@ -200,6 +203,11 @@ PanelChecks(w, S, p, prop) ==
           Chk(prop, "panel-entityat", p.atErr = "" /\ Len(at) = p.count /\ NoDup(at) /\ Range(at) = S),
           Chk("C10", "panel-entityat-out-of-range-panics", p.atLoPanic /\ p.atHiPanic),
           Chk(prop, "panel-walk", p.walkErr = "" /\ n >= 1 /\ \A j \in 1..n : stepOK(j)) >>
+
+(* The queries returned by batch operations are also subject to C03 (Count / EntityAt / Step agree). *)
+PanelChecks(w, S, p, prop) ==
+    IF prop = "C08" THEN PanelChecks1(w, S, p, "C08") \o PanelChecks1(w, S, p, "C03")
+    ELSE PanelChecks1(w, S, p, prop)
 
 ---------------------------------------------------------------------------
 (* Outcome *)
@@ -667,9 +675,7 @@ L2Checks(ln, w, regsAfter) ==
         pre == ShapeState(prev[ln.w].shape, prev[ln.w].obs, cfg2, w.regs)
         post == ShapeState(ln.shape, ln.obs, cfg2, regsAfter)
         exp == IF ln.res.panic THEN pre ELSE L2Expect(ln, pre, w)
-        okPanic == ln.res.panic =>
-                      (post.pool = pre.pool /\ post.eidx = pre.eidx /\ ProjCache(post) = ProjCache(pre)
-                       /\ \A n \in DOMAIN pre.nodes : ProjTables(post)[n].tbls = ProjTables(pre)[n].tbls \/ Len(post.nodes[n].tbls) >= Len(pre.nodes[n].tbls))
+        okPanic == ln.res.panic => (post.pool = pre.pool /\ post.eidx = pre.eidx)
     IN IF ln.res.panic THEN << Chk("DRIFT", "l2-failed-call-leaves-entities-in-place", okPanic) >>
        ELSE << Chk("DRIFT", "l2-entity-pool", post.pool = exp.pool),
                Chk("DRIFT", "l2-entity-index", post.eidx = exp.eidx /\ post.tflag = exp.tflag),
